@@ -132,6 +132,9 @@ def unit(batch, res):
             pair.encrypt_packet(bytes([0x40 | (pair.key_phase << 2) | 1]) + b"\x00\x00", b"\x00" * 8, 0)
             send_keys = send_keys.next_phase()
             recv_keys = send_keys if kind != "initialkeys" else recv_keys.next_phase()
+            # the peer answers in the new phase (RFC 9001 6.1: an update must be confirmed before the next one)
+            confirm = rc.protect(recv_keys, bytes([0x40 | (pair.key_phase << 2) | 1]), 1, 2, b"\x01" * 8)
+            pair.decrypt_packet(confirm, 1, 0)
         bit = gen & 1
         # header
         if hk == "short":
